@@ -3,7 +3,7 @@
 # -C instrument-coverage (nightly, llvm-tools), runs every quick check with that binary (output in out-cov/),
 # merges the profiles and prints a per-file summary; the annotated sources go to out-cov/coverage.txt.
 cd "$(dirname "$0")/.."
-set -e
+set -e; set +e
 ( cd harness && LLVM_PROFILE_FILE=/tmp/mtv-cov-build-%p.profraw RUSTFLAGS="-C instrument-coverage" cargo +nightly build --release --offline --target-dir target-cov >/dev/null 2>&1 )
 BIN=$PWD/harness/target-cov/release/mtv
 rm -rf out-cov; mkdir -p out-cov/prof
